@@ -65,7 +65,7 @@ std::string editModel(NifFile& nif, Tape& t) {
 		uint32_t nb = hdr.GetNumBlocks();
 		if (nb < 2)
 			break;
-		switch (t.u8() % 4) {
+		switch (t.u8() % 8) {
 			case 0: { // clear one non-empty child reference: the sub-graph behind it becomes loose
 				uint32_t start = t.u16() % nb;
 				for (uint32_t k = 0; k < nb; k++) {
@@ -104,6 +104,52 @@ std::string editModel(NifFile& nif, Tape& t) {
 					break;
 				nif.SetNodeName(nif.GetBlockID(nodes[t.u8() % nodes.size()]), "renamed_by_edit");
 				log += "rename-node; ";
+				break;
+			}
+			case 4: { // give a shader a material name (FO4+ files keep their values in the material file then)
+				auto shapes = nif.GetShapes();
+				if (shapes.empty())
+					break;
+				auto sh = nif.GetShader(shapes[t.u8() % shapes.size()]);
+				if (!sh)
+					break;
+				sh->name.get() = t.coin() ? "materials\\edit\\named.bgsm" : "";
+				log += "name-shader(" + std::string(sh->GetBlockName()) + "); ";
+				break;
+			}
+			case 5: { // change a texture path
+				auto shapes = nif.GetShapes();
+				if (shapes.empty())
+					break;
+				std::string tex = "textures\\edit\\slot.dds";
+				nif.SetTextureSlot(shapes[t.u8() % shapes.size()], tex, t.u8() % 4);
+				log += "set-texture-slot; ";
+				break;
+			}
+			case 6: { // add or remove an alpha property
+				auto shapes = nif.GetShapes();
+				if (shapes.empty())
+					break;
+				auto s = shapes[t.u8() % shapes.size()];
+				if (nif.GetAlphaProperty(s)) {
+					nif.RemoveAlphaProperty(s);
+					log += "remove-alpha; ";
+				}
+				else {
+					auto ap = std::make_unique<NiAlphaProperty>();
+					ap->flags = 4844;
+					ap->threshold = 100;
+					nif.AssignAlphaProperty(s, std::move(ap));
+					log += "assign-alpha; ";
+				}
+				break;
+			}
+			case 7: { // rename a shape
+				auto shapes = nif.GetShapes();
+				if (shapes.empty())
+					break;
+				shapes[t.u8() % shapes.size()]->name.get() = "shape_renamed_by_edit";
+				log += "rename-shape; ";
 				break;
 			}
 			default:
